@@ -189,6 +189,15 @@ static void do_misc_crystal(void) { xrl_error *e = NULL; Crystal_Struct *c; Crys
       if (a) { e = NULL; SP_LAST("Crystal_ReadFile(<generated file %d>, <user array>)", (int)j); r = Crystal_ReadFile(path, a, &e); sw_contract(F_ReadFile, e, r == 0, 1, 0, sp_w);
         if (j > 0 && r) sw_violation("Crystal_ReadFile", "wrong-answer", "a malformed file was accepted", sp_w);
         r = Crystal_ReadFile(path, a, NULL); Crystal_ArrayFree(a); }
+      /* the same content through something that is NOT a regular file: a pipe (as /proc/self/fd/N; what <(...) or /dev/stdin give a program), which
+       * cannot be repositioned - whatever the library makes of it, the outcome is a success or a failure WITH an error */
+      { int pp[2]; if (pipe(pp) == 0) { char ppath[64]; if (write(pp[1], files[j], strlen(files[j])) < 0) {} close(pp[1]); snprintf(ppath, sizeof ppath, "/proc/self/fd/%d", pp[0]);
+          a = Crystal_ArrayInit(1, NULL);
+          if (a) { e = NULL; SP_LAST("Crystal_ReadFile(<generated file %d through a pipe>, <user array>)", (int)j); r = Crystal_ReadFile(ppath, a, &e); sw_contract(F_ReadFile, e, r == 0, 1, 0, sp_w);
+            if (j > 0 && r) sw_violation("Crystal_ReadFile", "wrong-answer", "a malformed file was accepted (pipe)", sp_w); Crystal_ArrayFree(a); }
+          close(pp[0]); } }
+      if (j == 0) { a = Crystal_ArrayInit(1, NULL); if (a) { e = NULL; SP_LAST("Crystal_ReadFile('/dev/null', <user array>)"); r = Crystal_ReadFile("/dev/null", a, &e); sw_contract(F_ReadFile, e, r == 0, 1, 0, sp_w);
+          e = NULL; SP_LAST("Crystal_ReadFile(<a directory>, <user array>)"); r = Crystal_ReadFile("/tmp", a, &e); sw_contract(F_ReadFile, e, r == 0, 1, 0, sp_w); Crystal_ArrayFree(a); } }
       if (j == 10) { e = NULL; SP_LAST("Crystal_ReadFile(<generated file %d>, <built-in array>)", (int)j); r = Crystal_ReadFile(path, NULL, &e); sw_contract(F_ReadFile, e, r == 0, 1, 0, sp_w); }
       unlink(path); } }
   e = NULL;
